@@ -80,6 +80,16 @@ FailUntouched(envs) ==
      IsSelfMem(e.m1, e.o) /\ IsSelfMem(e.m2, e.o)
        /\ AltSet(e.mm, env) # {ByteBits(env.mem[AddrNat(env.regs["p"]) + e.o], 0)}}
 
+(* offsets (relative to p) a pointer key may denote: p+disp, or every alternative of a vector-valued base *)
+AltOff(b) == IF b.k = "reg" /\ b.n = "p" THEN {0}
+             ELSE IF b.k = "op" /\ b.s = "+" /\ b.l.k = "reg" /\ b.l.n = "p" /\ b.r.k = "cst" /\ AddrNat(b.r.v) >= 0 THEN {AddrNat(b.r.v)}
+             ELSE {}
+KeyOffs(loc) == IF loc.base.k = "vec" THEN {x + loc.disp : x \in UNION {AltOff(loc.base.l[i]) : i \in 1..Len(loc.base.l)}}
+                ELSE {x + loc.disp : x \in AltOff(loc.base)}
+MmCovers(o) == \E j \in 1..Len(T.items) :
+                 LET jt == T.items[j] IN
+                 jt.mm_has = 1 /\ jt.loc.k = "ptr" /\ \E d \in KeyOffs(jt.loc) : d <= o /\ o < d + jt.mm_w \div 8
+
 (* item level *)
 Alternatives(t) == IF t.k = "vec" THEN {t.l[i] : i \in 1..Len(t.l)} ELSE {t}
 UnknownTree(t) == t.k \in {"top"}
@@ -89,20 +99,18 @@ ListedOK(it, i, envs) ==
       has == IF i = 1 THEN it.m1_has ELSE it.m2_has
       es == {k \in 1..Len(envs) : Sat(envs[k], T.conds[i])}
       Means(a, vi) == a.w = vi.w /\ \A k \in es : LET x == EvalM(a, envs[k]) y == EvalM(vi, envs[k]) IN IsU(y) \/ x = y
+      locbytes == UNION {d..(d + (IF i = 1 THEN it.m1_w ELSE it.m2_w) \div 8 - 1) : d \in KeyOffs(it.loc)}
   IN has = 0 \/ (it.loc.k # "reg" /\ it.loc.base.k \in {"vec", "top"})    \* vector-valued keys: covered by Covers only
      \/ (it.mm_has = 1 /\
          (UnknownTree(it.mm_item)
           \/ \E a \in Alternatives(it.mm_item) : Means(a, vr) \/ Means(a, vo)))
+     \* the key was replaced in mm by a later item that overlaps the location (a store through a vector-valued
+     \* pointer deletes the items of the locations it may write): what mm holds there is judged by Covers
+     \/ (it.mm_has = 0 /\ it.loc.k = "ptr" /\ \E o \in locbytes : MmCovers(o))
 FailListed(envs) == {x \in {"i"} \X (1..Len(T.items)) \X {1, 2} \X {0} : ~ListedOK(T.items[x[2]], x[3], envs)}
 FailKeys == {x \in {"k"} \X (1..Len(T.items)) \X {0} \X {0} :
                T.items[x[2]].mm_has = 1 /\ T.items[x[2]].m1_has = 0 /\ T.items[x[2]].m2_has = 0}
 
-(* offsets (relative to p) a pointer key may denote: p+disp, or every alternative of a vector-valued base *)
-AltOff(b) == IF b.k = "reg" /\ b.n = "p" THEN {0}
-             ELSE IF b.k = "op" /\ b.s = "+" /\ b.l.k = "reg" /\ b.l.n = "p" /\ b.r.k = "cst" /\ AddrNat(b.r.v) >= 0 THEN {AddrNat(b.r.v)}
-             ELSE {}
-KeyOffs(loc) == IF loc.base.k = "vec" THEN {x + loc.disp : x \in UNION {AltOff(loc.base.l[i]) : i \in 1..Len(loc.base.l)}}
-                ELSE {x + loc.disp : x \in AltOff(loc.base)}
 (* the listed quirk: one memory key in both maps, m1's item narrower; the bytes m2's item exceeds m1's *)
 WiderSecond == {j \in 1..Len(T.items) : T.items[j].loc.k = "ptr" /\ T.items[j].m1_has = 1
                                         /\ T.items[j].m2_has = 1 /\ T.items[j].m1_w < T.items[j].m2_w}
